@@ -59,6 +59,17 @@ def norm(t):
             return _mk_sum(terms, const)
         if op in COMM and repr(a) > repr(b):
             a, b = b, a
+        # identities
+        for (x, y) in ((a, b), (b, a)):
+            if y[0] == "c":
+                if y[1] == 0 and op in ("|", "^"):
+                    return x
+                if y[1] == 0 and op == "&":
+                    return C(0)
+                if y[1] == 0 and op in ("<<", ">>") and y is b:
+                    return x
+                if y[1] == 1 and op == "*":
+                    return x
         return ("bin", op, a, b)
     if k == "cmp":
         op, a, b = t[1], norm(t[2]), norm(t[3])
@@ -77,7 +88,20 @@ def norm(t):
             terms = [(-s, x) for (s, x) in terms]
             const = -const
             op = {"<": ">", ">": "<", "<=": ">=", ">=": "<="}.get(op, op)
-        return ("cmp", op, _mk_sum(terms, 0), C(const))
+        lhs = _mk_sum(terms, 0)
+        if _is_bool(lhs) and op in ("==", "!="):
+            # boolean-valued term: (b == 1) <=> (b != 0), (b != 1) <=> (b == 0)
+            if const == 1:
+                return ("cmp", "!=" if op == "==" else "==", lhs, C(0))
+            if const not in (0, 1):
+                return C(0 if op == "==" else 1)
+        if lhs[0] == "cmp" and op in ("==", "!="):
+            # (cmp) != 0 -> cmp ; (cmp) == 0 -> !cmp
+            if const == 0:
+                return lhs if op == "!=" else norm(("cmp", CMPNEG[lhs[1]], lhs[2], lhs[3]))
+            if const == 1:
+                return lhs if op == "==" else norm(("cmp", CMPNEG[lhs[1]], lhs[2], lhs[3]))
+        return ("cmp", op, lhs, C(const))
     if k == "un":
         a = norm(t[2])
         if t[1] == "!" and a[0] == "cmp":
@@ -86,6 +110,8 @@ def norm(t):
             return C(0 if a[1] else 1)
         if t[1] == "-" and a[0] == "c":
             return C(-a[1])
+        if t[1] == "~" and a[0] == "c":
+            return C(~a[1])
         if t[1] == "-":
             return norm(("bin", "-", C(0), a))
         return ("un", t[1], a)
@@ -110,6 +136,10 @@ def norm(t):
     if k == "m0":
         return ("m0", norm(t[1]))
     return t
+
+
+def _is_bool(t):
+    return t[0] == "call" and len(t) > 3 and t[3] is True
 
 
 def _sum_terms(t):
@@ -522,3 +552,215 @@ class SymExec:
                     if kn is None:
                         s2.conds.append((c, want))
                 self._walk(to, s2)
+
+
+# ---------------------------------------------------------------------------
+# SymFlow: the term evaluator run as a path-sensitive dataflow (loops allowed;
+# states are merged by equality, so rules must keep the term domain finite:
+# call results are named by call *site*, and a rule resets what a blocking
+# call may have changed).
+# ---------------------------------------------------------------------------
+
+def term_mentions(t, sub):
+    if t == sub:
+        return True
+    if isinstance(t, tuple):
+        return any(term_mentions(x, sub) for x in t)
+    return False
+
+
+def site_of(node):
+    loc = node.get("loc") or [0, 0]
+    return (loc[0], loc[1] if len(loc) > 1 else 0)
+
+
+class FState(State):
+    """State with a user typestate dictionary `tags`; freezable."""
+
+    def __init__(self):
+        State.__init__(self)
+        self.tags = {}
+
+    def copy(self):
+        s = FState()
+        s.env = dict(self.env)
+        s.mem = dict(self.mem)
+        s.conds = list(self.conds)
+        s.events = list(self.events)
+        s.ncall = 0
+        s.ret = self.ret
+        s.blocks = []
+        s.vals = dict(self.vals)
+        s.tags = dict(self.tags)
+        return s
+
+    def freeze(self):
+        return (tuple(sorted(self.env.items(), key=repr)),
+                tuple(sorted(self.mem.items(), key=repr)),
+                frozenset(self.conds),
+                tuple(sorted(self.tags.items(), key=repr)),
+                tuple(sorted(self.vals.items(), key=repr)))
+
+    @staticmethod
+    def thaw(fz):
+        s = FState()
+        s.env = dict(fz[0])
+        s.mem = dict(fz[1])
+        s.conds = list(fz[2])
+        s.tags = dict(fz[3])
+        s.vals = dict(fz[4])
+        return s
+
+    def assume(self, c, truth):
+        """Add path condition; returns False when infeasible."""
+        c = norm(c)
+        if c[0] != "cmp" and c[0] != "c":
+            c = norm(("cmp", "!=", c, C(0)))
+        kn = self.cond_known(c)
+        if kn is not None:
+            return kn == truth
+        self.conds.append((c, truth))
+        return True
+
+    def forget(self, pred):
+        """Drop path conditions, memory and cached values whose terms satisfy pred."""
+        self.conds = [(c, t) for (c, t) in self.conds if not pred(c)]
+        self.mem = {k: v for k, v in self.mem.items() if not pred(k) and not pred(v)}
+        self.vals = {k: v for k, v in self.vals.items() if not pred(v)}
+
+    def cond_known(self, t):
+        t = norm(t)
+        if t[0] == "c":
+            return bool(t[1])
+        r = State.cond_known(self, t)
+        if r is not None:
+            return r
+        # x == c1 known true  =>  x == c2 false, x != c2 true (c1 != c2)
+        if t[0] == "cmp" and t[3][0] == "c":
+            for (c, truth) in self.conds:
+                if c[0] == "cmp" and c[2] == t[2] and c[3][0] == "c":
+                    if c[1] == "==" and truth:
+                        v = c[3][1]
+                        w = t[3][1]
+                        return {"==": v == w, "!=": v != w, "<": v < w, "<=": v <= w, ">": v > w, ">=": v >= w}[t[1]]
+                    if c[1] == "!=" and not truth:
+                        v = c[3][1]
+                        w = t[3][1]
+                        return {"==": v == w, "!=": v != w, "<": v < w, "<=": v <= w, ">": v > w, ">=": v >= w}[t[1]]
+        return None
+
+
+class SymFlow:
+    """on_call(name, args, node, st, sx) -> None | [(ret, st)];
+    on_stmt_done(st, block, idx, stmt) optional; on_return(st, stmt) optional."""
+
+    def __init__(self, fn, on_call=None, on_return=None, on_branch=None, max_states=20000, bool_calls=(),
+                 on_stmt_done=None):
+        from .flow import Flow
+        self.fn = fn
+        self.on_call = on_call
+        self.on_return = on_return
+        self.on_branch = on_branch
+        self.on_stmt_done = on_stmt_done
+        self.bool_calls = set(bool_calls)
+        self.sx = SymExec(fn, self._call)
+        self.flow = Flow(fn, [], self._stmt, self._edge, max_states=max_states)
+        self.returns = []   # (frozen_state, stmt, flow.cur)
+
+    def _call(self, name, args, node, st, sx):
+        r = None
+        if self.on_call is not None:
+            r = self.on_call(name, args, node, st, sx)
+        if r is not None:
+            return r
+        site = site_of(node)
+        t = ("call", name, site, name in self.bool_calls)
+        st.forget(lambda x: term_mentions(x, t))
+        return [(t, st)]
+
+    def _stmt(self, fz, b, i, stmt):
+        st = FState.thaw(fz)
+        outs = []
+        if stmt["k"] == "decl":
+            if stmt.get("init") is not None:
+                for (t, s2) in self.sx.ev(stmt["init"], st):
+                    s2.env[stmt["name"]] = norm(t)
+                    outs.append(s2)
+            else:
+                st.env[stmt["name"]] = ("unk", stmt["name"])
+                outs.append(st)
+        elif stmt["k"] == "ret":
+            if stmt.get("e") is not None:
+                for (t, s2) in self.sx.ev(stmt["e"], st):
+                    s2.ret = norm(t)
+                    outs.append(s2)
+            else:
+                st.ret = ("void",)
+                outs.append(st)
+            for s2 in outs:
+                self.returns.append((s2, stmt, self.flow.cur))
+                if self.on_return is not None:
+                    self.on_return(s2, stmt, self)
+        else:
+            for (t, s2) in self.sx.ev(stmt, st):
+                nt = norm(t)
+                s2.vals[_vkey(stmt)] = nt
+                s2.vals[_vkey(strip_expect(stmt))] = nt
+                if b.term and b.term.get("ci") == i:
+                    s2.env["__cond__"] = nt
+                outs.append(s2)
+        res = []
+        for s2 in outs:
+            if self.on_stmt_done is not None:
+                self.on_stmt_done(s2, b, i, stmt, self)
+            s2.ret = None if stmt["k"] != "ret" else s2.ret
+            res.append(s2.freeze())
+        return res
+
+    def _edge(self, fz, b, to, on):
+        if on not in ("true", "false") or not b.term or b.term.get("ci", -1) < 0:
+            if on.startswith("case:") or on == "default":
+                st = FState.thaw(fz)
+                ct = st.env.get("__cond__")
+                if ct is not None:
+                    if on.startswith("case:"):
+                        try:
+                            v = int(on[5:])
+                        except ValueError:
+                            return fz
+                        if not st.assume(("cmp", "==", ct, C(v)), True):
+                            return None
+                    else:
+                        for (t2, o2) in b.succs:
+                            if o2.startswith("case:"):
+                                try:
+                                    v = int(o2[5:])
+                                except ValueError:
+                                    continue
+                                if not st.assume(("cmp", "==", ct, C(v)), False):
+                                    return None
+                    st.env.pop("__cond__", None)
+                    return st.freeze()
+            return fz
+        st = FState.thaw(fz)
+        ct = st.env.pop("__cond__", None)
+        if ct is None:
+            return st.freeze()
+        want = on == "true"
+        if self.on_branch is not None:
+            self.on_branch(st, b, ct, want, self)
+        if ct[0] == "bin" and ct[1] in ("&&", "||"):
+            # value of a short-circuit operator joined elsewhere: no information
+            return st.freeze()
+        if not st.assume(ct, want):
+            return None
+        return st.freeze()
+
+    def run(self, init=None):
+        st0 = init or FState()
+        self.flow.init_states = [st0.freeze()]
+        self.flow.run()
+        return self
+
+    def witness_lines(self, cur):
+        return self.flow.witness_lines(cur[0], cur[1])
